@@ -667,6 +667,58 @@ class Unit:
             self.expected.append(rename or name)
         return text
 
+    def arm(self, path, block, fn_name, pattern, new_name, params, spec=None, rules=(), proofs=None, loops=None, props=None, key=None, vpath=None, ret_ty=""):
+        """R-arm: extract ONE match arm of fn `fn_name` (the arm whose pattern text is `pattern`) and wrap its block as a
+        function `new_name(params)` whose parameters are the pattern bindings + the enclosing function's parameters.
+        The other arms are not claimed by this unit."""
+        src = self.src(path)
+        blk = rl.find_block(path, src, block)[0] if block else None
+        it = rl.find_fn(path, src, blk, fn_name)
+        raw_fn = it.text
+        i = raw_fn.find(pattern)
+        if i < 0:
+            raise LostAnchor("%s: arm `%s` not found in fn %s" % (path, pattern, fn_name))
+        j = raw_fn.index("=>", i + len(pattern))
+        rest = raw_fn[j + 2:]
+        code = rl.code_toks(rl.lex(rest))
+        if not code or code[0].text != "{":
+            raise Unsupported("%s: arm `%s` is not a block" % (path, pattern))
+        close = rl.match_close(code, 0)
+        body_raw = rest[code[0].start:code[close].end]
+        key = key or "%s::%s[arm %s]" % (block or path, fn_name, pattern)
+        fake = "fn %s(%s)%s %s" % (new_name, params, (" -> " + ret_ty) if ret_ty else "", body_raw)
+        ctx = Ctx(self, key)
+        ctx.app("R-arm", "arm `%s` of fn %s" % (pattern, fn_name), "fn %s(%s)" % (new_name, params))
+        text = fake
+        stub_reason = self.stub_keys.get(key)
+        try:
+            for r in [r_attr, r_cfg] + list(rules):
+                text = r(text, ctx)
+        except (LostAnchor, Unsupported) as e:
+            stub_reason = stub_reason or ("%s: %s" % (type(e).__name__, e))
+        header, body = fn_split(text)
+        prefix = ""
+        if stub_reason:
+            body = "{ unimplemented!() }"
+            prefix = "#[verifier::external_body]\n    "
+            loops, proofs = None, None
+            self.stubbed[key] = {"reason": stub_reason[:400], "props": list(props or [])}
+        self._gid = getattr(self, "_gid", 0) + 1
+        line = src.count("\n", 0, it.start + i) + 1
+        meta = {"kind": "code", "key": key, "props": props or [], "src": path, "src_line": line, "gid": self._gid, "fname": new_name, "canary_ok": bool(spec) and not stub_reason}
+        self.chunks.append((prefix + header.rstrip() + "\n", dict(meta, kind="header")))
+        if spec:
+            pieces = [(spec, props or [])] if isinstance(spec, str) else spec
+            for ptxt, pprops in pieces:
+                self.chunks.append((indent(ptxt, 8) + "\n", dict(meta, kind="contract", props=list(pprops))))
+        self.chunks.append(("    ", dict(meta)))
+        for seg, tag in splice(body, loops, proofs, key):
+            self.chunks.append((seg, dict(meta, kind=tag)))
+        self.chunks.append(("\n\n", dict(meta)))
+        self.functions.append({"item": key, "file": path, "line": line, "vpath": vpath or new_name, "sha256": hashlib.sha256(body_raw.encode()).hexdigest(),
+                               "rules": ctx.apps, "kind": "fn", "has_contract": bool(spec), "props": props or [], "no_canary": bool(stub_reason), "stubbed": stub_reason})
+        self.expected.append(new_name)
+
     # -- output
     def canary(self, text, key):
         """A proof obligation that MUST fail (vacuity guard); only emitted in canary mode."""
